@@ -54,6 +54,7 @@ fn chien_search<T: Into<GF> + Copy>(c: &[T]) -> Vec<GF> {
         out.push(GF(0));
     }
     if c.len() == 2 {
+        verif_probe!(crate::verif_probes::CHIEN_DEGREE1_SHORTCUT);
         if c[1].into() != GF(0) && c[0].into() != GF(0) {
             out.push(-c[1].into() / c[0].into());
         }
